@@ -19,14 +19,22 @@ def die_infra(msg):
     sys.exit(2)
 
 
-def par(cmds, what='compile'):
-    """run compile commands in parallel; any failure is a harness error"""
+class WorldUnavailable(Exception):
+    """a freestanding world (no C library of its own) cannot be built because the code under test includes a system
+    header that world does not provide; the caller leaves the world out and says so in the evidence"""
+
+
+def par(cmds, what='compile', soft=False):
+    """run compile commands in parallel; any failure is a harness error (soft: a missing system header raises WorldUnavailable)"""
     def one(c):
         r = sh(c)
         return c, r
     with cf.ThreadPoolExecutor(NCPU) as ex:
         for c, r in ex.map(one, cmds):
             if r.returncode != 0:
+                m = re.search(r"fatal error: '?([\w./+-]+\.h)'?(: No such file or directory| file not found)", r.stderr)
+                if soft and m and not m.group(1).startswith('avtp/'):
+                    raise WorldUnavailable('%s: <%s> is not available there' % (what, m.group(1)))
                 die_infra('%s failed: %s\n%s' % (what, ' '.join(c), r.stderr[-3000:]))
 
 
